@@ -529,6 +529,16 @@ class ConnSettings:
             if not b:
                 continue
             danger = self.DANGER[b[0][1]]
+            # the switch inside a closure that is handed to a function the interpreter has no model of (OnceLock::get_or_init,
+            # a thread, ...): whether it runs - now, once per process, never - is not decided by this connection's settings
+            for e in o.st.ev[o.st.ev.index(b[0]):]:
+                if e[0] != 'call':
+                    continue
+                for c in [y for x in e[2] for y in absx.leaves(x, lambda y: y[0] == 'closure')]:
+                    for body in [self.facts.hir.get(b[0][1]), self.facts.hir.get(self.TS)]:
+                        for nd, _c in walk(body['body']) if body else ():
+                            if nd['k'] == 'Closure' and nd.get('def') == c[1] and any(m['k'] == 'MethodCall' and (callee_of(m) or '').endswith(danger) for m, _c2 in walk(nd['body'])):
+                                return None, 'the call that switches verification off sits in a closure handed to %s: whether it runs is not decided by this connection\'s settings' % e[1].rsplit('::', 1)[-1]
             d = [e for e in o.st.ev if e[0] == 'call' and e[1].endswith(danger)]
             if d and danger == 'danger_accept_invalid_certs' and d[0][2][1] != ('lit', True):
                 if d[0][2][1] == ('lit', False):
